@@ -546,12 +546,13 @@ def _local2synodic_collinear(point: CollinearPoint, local_coords: np.ndarray, to
     vy = c[4] - c[0]
     vz = c[5]
 
-    syn[3] = gamma * vx  # Vx
-    syn[4] = gamma * vy  # Vy
+    syn[3] = sgn * gamma * vx  # Vx
+    syn[4] = sgn * gamma * vy  # Vy
     syn[5] = gamma * vz  # Vz
 
-    # Flip X and Vx according to NASA/Szebehely convention (see standard relations)
-    syn[[0, 3]] *= -1.0
+    # The NASA/Szebehely frame is the local (Jorba-Masdemont) frame rotated by pi about the z-axis:
+    # X, Y and their velocities change sign (a reflection of X alone would reverse the sense of rotation).
+    syn[[0, 1, 3, 4]] *= -1.0
 
     return syn
 
@@ -605,15 +606,15 @@ def _synodic2local_collinear(point: CollinearPoint, synodic_coords: np.ndarray, 
     # X coordinate
     local[0] = (-s[0] - mu - a) / (sgn * gamma)
     # Y coordinate
-    local[1] = s[1] / (sgn * gamma)
+    local[1] = -s[1] / (sgn * gamma)
     # Z coordinate
     local[2] = s[2] / gamma
 
     # Invert velocity mapping
-    # px1 from Vx (note the sign flip on Vx)
-    local[3] = -s[3] / gamma - local[1]
+    # px1 from Vx (rotation by pi: sign flip on Vx and Vy)
+    local[3] = -s[3] / (sgn * gamma) - local[1]
     # px2 from Vy
-    local[4] = s[4] / gamma + local[0]
+    local[4] = -s[4] / (sgn * gamma) + local[0]
     # px3 from Vz
     local[5] = s[5] / gamma
 
